@@ -184,7 +184,7 @@ func applyOptions(fd *descpb.FieldDescriptorProto, f *ir.Field) {
 	if f.Kind == ir.KTimestamp && !f.NoStd {
 		setExt(&fd.Options, gogoproto.E_Stdtime, proto.Bool(true))
 	}
-	if f.Kind == ir.KDuration && !f.NoStd {
+	if (f.Kind == ir.KDuration && !f.NoStd) || f.StdDurationOnInt {
 		setExt(&fd.Options, gogoproto.E_Stdduration, proto.Bool(true))
 	}
 }
